@@ -1402,7 +1402,7 @@ impl Check for C18 {
         8
     }
     fn rule(&self) -> String {
-        "cases 0 mod 4 = one ring (1..64 entries) driven with 4 (thorough: up to 40) seeded batches of 1..8 independent entries drawn from mkdirat, openat (create or not), writev (1..3 iovecs), readv, statx, renameat, unlinkat (file/dir), close, timeout, socket, incl. operations that must fail (missing names, closed descriptors); each batch is reaped completely, completions are matched by user_data (the kernel's completion order is not controlled) and every result is compared with the equivalent direct system call executed in a twin directory, then both directories are compared; exactly one completion per submission. cases 2 mod 4 = one ring (2..32 entries, plain / SQE128 / CQE32) driven with 6 (thorough: up to 30) seeded rounds drawn from: connect (listening socket, missing path, regular file) vs connect(2) incl. the pending connection it leaves; accept of a pre-connected named or unnamed unix client / loopback TCP client, with or without address buffers, initial length 0/2/8/16/20/110/128, buffers zeroed or 0xff, compared with accept4(2) for result, written length, address bytes and canaries around both buffers; sendmsg (1..30000 bytes, 1..3 iovecs, 0..5 SCM_RIGHTS descriptors) vs sendmsg(2), judged by what the peer receives; recvmsg (data buffer 1..5000, control buffer 0..200 bytes, 0..3 descriptors) vs recvmsg(2) for result, bytes, descriptors found by rusl's control-message iterator (identity by fstat) and canaries; poll_add on a descriptor in a ready state (writable / readable / hung up) vs poll(2); write_fixed + read_fixed on registered buffers at seeded offsets vs pwrite/pread incl. bytes outside the requested range; linked chains of 2..5 dependent directory operations (mkdir, create, rename, unlink, close of a bad descriptor) vs the same calls one after the other (the twin follows the ring on whether a failure severs the chain, which is kernel-version dependent, and requires cancelled entries to form a suffix that starts after a failed entry). odd cases = setup + drop with a mapping/descriptor ledger at the system-call seam, on the real kernel and on the ring stub (both IORING_FEAT_SINGLE_MMAP and two-mapping layouts), with io_uring_setup or the 1st/2nd/3rd mmap failing by decision: every ring mapping unmapped exactly once with its own length, nothing else unmapped, descriptor closed exactly once, nothing left after a failed setup (the same ledger verdict closes every operation run). non-trivial = batch run with >=4 compared operations incl. a failing one, a socket run with >=2 operation kinds, or a setup fault that fired; distinct = hash of configuration and results".into()
+        "the family of a case is chosen by a hash of its number, a quarter each: (a) one ring (1..64 entries) driven with 4 (thorough: up to 40) seeded batches of 1..8 independent entries drawn from mkdirat, openat (create or not), writev (1..3 iovecs), readv, statx, renameat, unlinkat (file/dir), close, timeout, socket, incl. operations that must fail (missing names, closed descriptors); each batch is reaped completely, completions are matched by user_data (the kernel's completion order is not controlled) and every result is compared with the equivalent direct system call executed in a twin directory, then both directories are compared; exactly one completion per submission. (b) one ring (2..32 entries, plain / SQE128 / CQE32) driven with 6 (thorough: up to 30) seeded rounds drawn from: connect (listening socket, missing path, regular file) vs connect(2) incl. the pending connection it leaves; accept of a pre-connected named or unnamed unix client / loopback TCP client, with or without address buffers, initial length 0/2/8/16/20/110/128, buffers zeroed or 0xff, compared with accept4(2) for result, written length, address bytes and canaries around both buffers; sendmsg (1..30000 bytes, 1..3 iovecs, 0..5 SCM_RIGHTS descriptors) vs sendmsg(2), judged by what the peer receives; recvmsg (data buffer 1..5000, control buffer 0..200 bytes, 0..3 descriptors) vs recvmsg(2) for result, bytes, descriptors found by rusl's control-message iterator (identity by fstat) and canaries; poll_add on a descriptor in a ready state (writable / readable / hung up) vs poll(2); write_fixed + read_fixed on registered buffers at seeded offsets vs pwrite/pread incl. bytes outside the requested range; linked chains of 2..5 dependent directory operations (mkdir, create, rename, unlink, close of a bad descriptor) vs the same calls one after the other (the twin follows the ring on whether a failure severs the chain, which is kernel-version dependent, and requires cancelled entries to form a suffix that starts after a failed entry). (c, half of the cases) setup + drop with a mapping/descriptor ledger at the system-call seam, on the real kernel and on the ring stub (both IORING_FEAT_SINGLE_MMAP and two-mapping layouts), with io_uring_setup or the 1st/2nd/3rd mmap failing by decision: every ring mapping unmapped exactly once with its own length, nothing else unmapped, descriptor closed exactly once, nothing left after a failed setup (the same ledger verdict closes every operation run). non-trivial = batch run with >=4 compared operations incl. a failing one, a socket run with >=2 operation kinds, or a setup fault that fired; distinct = hash of configuration and results".into()
     }
     fn assumptions(&self) -> Vec<String> {
         vec![
@@ -1415,13 +1415,14 @@ impl Check for C18 {
         json!({"real": ["rusl SQE constructors, setup_io_uring, io_uring_enter, IoUring ring code and Drop", "the kernel's io_uring implementation (operation batches)", "libc direct calls as twins"], "stub": ["ring stub for the single-mmap teardown layout", "failing setup calls (-errno at the sc seam)"]})
     }
     fn run(&self, case: u64, dec: Dec, opts: &RunOpts) -> RunOut {
-        if case % 2 == 1 {
-            run_teardown(dec, opts)
-        } else if case % 4 == 2 {
-            run_ext_ops(dec, opts, case, if opts.tier == Tier::Thorough && case % 16 == 2 { 30 } else { 6 })
-        } else {
-            let nb = if opts.tier == Tier::Thorough && case % 16 == 0 { 40 } else { 4 };
-            run_ops(dec, opts, case, nb)
+        // the family by a hash of the case number (cases are dealt to the workers round-robin: a
+        // plain modulus would leave half of the workers with the cheap teardown cases only)
+        let hk = simk::dec::mix(&[case, 0xc18]);
+        let long = opts.tier == Tier::Thorough && (hk >> 8) % 4 == 0;
+        match hk % 4 {
+            1 | 3 => run_teardown(dec, opts),
+            2 => run_ext_ops(dec, opts, case, if long { 30 } else { 6 }),
+            _ => run_ops(dec, opts, case, if long { 40 } else { 4 }),
         }
     }
 }
